@@ -557,7 +557,7 @@ func genServerRegistrations(lf *leanFile) {
 	}
 	// abstract value of every variable: "plain" (NewTranslatorService result), "tls" (wrapper when the flag is set, plain otherwise), "?" otherwise
 	val := map[string]string{}
-	var regs []string
+	var regs, hook []string
 	assign := func(t *ast.AssignStmt, inTLSBranch bool) {
 		if len(t.Rhs) != 1 || len(t.Lhs) == 0 {
 			for _, l := range t.Lhs {
@@ -626,6 +626,14 @@ func genServerRegistrations(lf *leanFile) {
 				continue
 			}
 			name := selPath(c.Fun)
+			if name == "OngRPCServerInit" && len(c.Args) == 3 {
+				arg := selPath(c.Args[2])
+				v, ok := val[arg]
+				if !ok {
+					v = "?"
+				}
+				hook = append(hook, fmt.Sprintf("(%q, %q, %q)", name, arg, v))
+			}
 			if strings.HasPrefix(name, "Register") && strings.HasSuffix(name, "Server") && len(c.Args) == 2 {
 				arg := selPath(c.Args[1])
 				v, ok := val[arg]
@@ -641,6 +649,8 @@ func genServerRegistrations(lf *leanFile) {
 	}
 	lf.def("serverRegistrations", "List (String × String × String)", "[\n  "+strings.Join(regs, ",\n  ")+"]",
 		facRel+": NewServer – every Register<Service>Server(grpcServer, x) call as (service, x, what x holds there: \"tls\" = NewTLSDecryptServiceWrapper(plain service, data.TLSClientIDExtractor) when data.UseConnectionClientID is set and the plain service otherwise; \"plain\" = NewTranslatorService(…) in both cases)")
+	lf.def("serverInitHook", "List (String × String × String)", "["+strings.Join(hook, ", ")+"]",
+		facRel+": NewServer – the service handed to the server-init subscribers (they may register further services with it), same encoding")
 	// the RPCs of every gRPC service of the API (interfaces <Service>Server of api_grpc.pb.go)
 	type kv = struct {
 		k string
